@@ -144,7 +144,7 @@ CLAIMED["C13"] = dict(
 )
 CLAIMED["C14"] = dict(
     category="model_checking",
-    text="Bounded, and relative to the list of methods registered for a path. <CORSProc as FangProc>::bite over 512 configuration/request shapes (quick tier: 18 chosen so that every option takes both values "
+    text="Bounded, and relative to the list of methods registered for a path. <CORSProc as FangProc>::bite over 429 of the 512 configuration/request shapes (83 shapes that take the `Vary` append path together with further options need 10-30 GB each and are not registered; quick tier: 18 chosen so that every option takes both values "
          "under OPTIONS and under GET and every inner status occurs): every response carries Access-Control-Allow-Origin == configured origin, Access-Control-Allow-Credentials: true iff enabled on a non-wildcard "
          "origin (the builder refuses credentials on `*`), the configured exposed headers; an OPTIONS response additionally the configured max-age and the configured or echoed (3 symbolic bytes) request headers, "
          "and the inner 501 of a valid preflight becomes 200 without Content-Type/Content-Length while every other status passes through; a non-OPTIONS response gets none of the preflight-only headers and keeps "
